@@ -74,6 +74,7 @@ type ClientScenario struct {
 	Horizon    int64 // ticks; calls with Tries<0 are cancelled by the harness here (0 = none)
 	FailWrites []int // indices of WriteTo calls that fail with an injected error
 	CloseErr   bool  // the connection's Close reports an error (and closes)
+	Raw        bool  // DHCPv4 only: the client runs on nclient4.NewBroadcastUDPConn(<scripted conn>), the production stack (datagrams are IPv4/UDP frames)
 	Decoy      bool  // a second client with a different configuration is constructed (and closed) after the one under test
 	Log        bool  // the client is configured with its debug logger (output discarded) and, for DHCPv6, with WithLogDroppedPackets
 	Bound      int
@@ -92,6 +93,9 @@ func (s *ClientScenario) String() string {
 	}
 	if s.Log {
 		b.WriteString("(debug logger, dropped packets logged) ")
+	}
+	if s.Raw {
+		b.WriteString("(over the raw broadcast connection) ")
 	}
 	if s.Decoy {
 		b.WriteString("(another client with another configuration constructed afterwards) ")
@@ -136,6 +140,31 @@ var serverAddr6 = &net.UDPAddr{IP: net.ParseIP("fe80::1"), Port: 547}
 var otherDest6 = &net.UDPAddr{IP: net.ParseIP("2001:db8::99"), Port: 5547}
 var zonedDest6 = &net.UDPAddr{IP: net.ParseIP("fe80::99"), Port: 547, Zone: "eth7"}
 var zonedDest4 = &net.UDPAddr{IP: net.IPv4(169, 254, 0, 9), Port: 67, Zone: "eth7"}
+
+// udpFrame wraps a DHCPv4 payload into the IPv4/UDP frame a raw socket would deliver: 10.0.0.1:67 -> 255.255.255.255:68.
+func udpFrame(payload []byte) []byte {
+	n := 28 + len(payload)
+	f := make([]byte, n)
+	f[0] = 0x45
+	f[2], f[3] = byte(n>>8), byte(n)
+	f[8], f[9] = 64, 17
+	copy(f[12:16], []byte{10, 0, 0, 1})
+	copy(f[16:20], []byte{255, 255, 255, 255})
+	sum := uint32(0)
+	for i := 0; i < 20; i += 2 {
+		sum += uint32(f[i])<<8 | uint32(f[i+1])
+	}
+	for sum>>16 != 0 {
+		sum = sum&0xffff + sum>>16
+	}
+	f[10], f[11] = byte(^sum>>8), byte(^sum)
+	f[20], f[21] = 0, 67
+	f[22], f[23] = 0, 68
+	ul := 8 + len(payload)
+	f[24], f[25] = byte(ul>>8), byte(ul)
+	copy(f[28:], payload)
+	return f
+}
 
 func xid4(id int) dhcpv4.TransactionID {
 	return dhcpv4.TransactionID{0xa0 + byte(id), 0x11, 0x22, 0x33}
@@ -273,7 +302,11 @@ func (s *ClientScenario) body(out **clientRun) func() {
 			if s.Log {
 				opts4 = append(opts4, quiet4(nclient4.WithDebugLogger()))
 			}
-			cl, err := nclient4.NewWithConn(conn, clientMAC, opts4...)
+			var pc net.PacketConn = conn
+			if s.Raw {
+				pc = nclient4.NewBroadcastUDPConn(conn, &net.UDPAddr{Port: 68})
+			}
+			cl, err := nclient4.NewWithConn(pc, clientMAC, opts4...)
 			if err != nil {
 				panic(err)
 			}
@@ -385,7 +418,11 @@ func (s *ClientScenario) body(out **clientRun) func() {
 			var group []Datagram
 			for j < len(s.Dgs) && s.Dgs[j].At == s.Dgs[i].At {
 				b := s.base(j)
-				group = append(group, Datagram{Serial: b, Data: buildDg(s.V6, s.Dgs[b], b), From: serverAddr})
+				data := buildDg(s.V6, s.Dgs[b], b)
+				if s.Raw && !s.V6 {
+					data = udpFrame(data)
+				}
+				group = append(group, Datagram{Serial: b, Data: data, From: serverAddr})
 				j++
 			}
 			conn.DeliverGroupAt(s.Dgs[i].At*Tick, group)
